@@ -1,14 +1,20 @@
-import sys, os
-from verif.tlc import run_tlc, json_lines, SPEC_DIR
-base = open(os.path.join(SPEC_DIR,'Defaults_tree.cfg')).read()
-DT = '{"New", "ParseAbsent", "ParsePresent", "DeepCopy", "MutateNested", "Drop"}'
-for ops in (None, DT):
-  for d in (3,4,5,6):
-    txt = base.replace('MaxOps = 4', f'MaxOps = {d}')
-    if ops:
-        txt = '\n'.join(('  Ops = '+ops) if l.strip().startswith('Ops') else l for l in txt.splitlines())+'\n'
-    open(os.path.join(SPEC_DIR,'_gen_c12_t.cfg'),'w').write(txt)
-    r = run_tlc('Defaults','_gen_c12_t.cfg', workers=1)
-    b = json_lines(r.stdout,'BEH')
-    print('dt' if ops else 'all', d, len(b), round(r.wall_s,1), len(r.stdout))
-os.remove(os.path.join(SPEC_DIR,'_gen_c12_t.cfg'))
+import collections, traceback, time
+from verif import c12_helpers as h
+h._xs().MANDATORY_VALUE_CHECKING = False
+ms = h.discover()
+print(len(ms), collections.Counter((m.kind, m.container) for m in ms))
+fails = collections.Counter(); ok=0
+t0=time.time()
+for m in ms:
+    try:
+        m.prepare(); ok+=1
+        u = {k:v for k,v in m.unsupported.items() if 'no such method' not in v}
+        if u: print('UNSUP', m.ident, u)
+        if m.fresh_none: print('FRESHNONE', m.ident)
+        if 'A0' in m.tok.values(): print('A0', m.ident)
+    except Exception as ex:
+        msg = str(ex).splitlines()
+        key = (type(ex).__name__, (msg[0] if msg else '')[:150])
+        fails[key]+=1
+        print('FAIL', m.ident, m.descriptor, key)
+print(ok, time.time()-t0)
